@@ -94,3 +94,42 @@ Proof. intros. split; reflexivity. Qed.
     in between *)
 Theorem C10_cleanup_before_flush : remove_cleanup_before_flush = true.
 Proof. reflexivity. Qed.
+
+(** the usual position: the timeout toxic is the last of its chain (AddToxic appends). Then after
+    its removal the receiver is closed and gets NOTHING more - whatever is parked in earlier stages
+    or still arrives - on every schedule: only the last stub ever writes to the receiver
+    (Proofs/SinkFrame.v: [sink_writer]) and it is dead *)
+From TP Require Import Proofs.SinkFrame.
+Theorem C10_removed_last_timeout_delivers_nothing : forall l i s acc tmr,
+  nth_error (l_stubs l) i = Some s -> s_st s = Idle acc tmr -> s_closed s = false -> S i = length (l_stubs l) ->
+  exists l1 l2,
+    ctl_step l (CInterrupt i) = Some l1 /\ ctl_step l1 (CSever i) = Some l2 /\
+    l_sink_closed l2 <> None /\
+    forall sigma l3, sched_run l2 sigma = Some l3 -> sink_bytes l3 = sink_bytes l.
+Proof. exact removed_last_timeout_delivers_nothing. Qed.
+
+(** who writes to the receiver at all *)
+Theorem C10_only_the_last_stub_writes : forall l a l',
+  sched_step l a = Some l' ->
+  sink_bytes l' = sink_bytes l \/
+  (exists j, a = AMove j /\ S j = length (l_stubs l)) \/ (a = AReader /\ l_stubs l = []).
+Proof. exact sink_writer. Qed.
+
+(** any position of the removed toxic: what the receiver ever gets after the removal is made of what
+    was already delivered or inside the stages BELOW the dead stub at that moment - nothing that
+    was parked above it, in its input buffer, or arrives later - on every schedule on which no
+    hand-off below it is given up (the 5 s clause of C02). [below k] = delivered ++ held at
+    positions >= k is changed by no action but stub k-1's own send (Proofs/Cut.v: [cut_step]) *)
+From TP Require Import Proofs.StageContract Proofs.LinkInv Proofs.Cut.
+Theorem C10_nothing_crosses_a_dead_stub : forall sigma l l' i,
+  wall l i -> Forall stub_ok (skipn (S i) (l_stubs l)) ->
+  Forall (fun a => forall j, (S i <= j)%nat -> a <> ASendTimeout j) sigma ->
+  sched_run l sigma = Some l' ->
+  sink_bytes l' ++ flow (skipn (S i) (l_stubs l')) = sink_bytes l ++ flow (skipn (S i) (l_stubs l)) /\ wall l' i.
+Proof. exact nothing_crosses_a_wall. Qed.
+
+Theorem C10_cut : forall k l a l',
+  (k <= length (l_stubs l))%nat -> Forall stub_ok (skipn k (l_stubs l)) ->
+  sched_step l a = Some l' -> ~ crosses k a ->
+  below k l' = below k l /\ Forall stub_ok (skipn k (l_stubs l')) /\ length (l_stubs l') = length (l_stubs l).
+Proof. exact cut_step. Qed.
